@@ -4,6 +4,7 @@ package c05
 import (
 	"errors"
 	"fmt"
+	"net"
 	"net/http"
 	"strings"
 	"testing"
@@ -43,6 +44,9 @@ type Script struct {
 	Custom     []CustomInj `json:"custom"`
 	SplitHello bool        `json:"split_hello"` // hello spread over two records: JA3/JA4 cannot be computed
 	Reqs       []Req       `json:"reqs"`
+	// Prior: another client (a different hello, another address) has connected, been fingerprinted and served
+	// before the connection under test arrives
+	Prior bool `json:"prior,omitempty"`
 }
 
 type inj struct {
@@ -87,6 +91,7 @@ func gen(t *rapid.T) Script {
 	var s Script
 	s.Proto = rapid.SampledFrom([]string{"h2", "http/1.1", "none"}).Draw(t, "proto")
 	s.SplitHello = rapid.IntRange(0, 5).Draw(t, "split") == 0
+	s.Prior = rapid.Bool().Draw(t, "prior")
 	nc := rapid.IntRange(0, 2).Draw(t, "ncustom")
 	pool := []string{"X-My-Fingerprint", "x-custom-fp", "X-TLS-Hash", "Client-Fingerprint"}
 	for i := 0; i < nc; i++ {
@@ -131,6 +136,10 @@ func gen(t *rapid.T) Script {
 	return s
 }
 
+// rapid_keepPriorOpen: whether the earlier client is still connected while the connection under test is
+// served (derived from the script so that a replay does the same).
+func rapid_keepPriorOpen(s Script) bool { return len(s.Reqs)%2 == 1 }
+
 func isConfigured(name string, s Script) bool {
 	for _, n := range defaultNames {
 		if strings.EqualFold(n, name) {
@@ -167,6 +176,20 @@ func exec(t *testing.T, s Script) *vstat.Violation {
 		}
 		var cc *rig.ClientConn
 		var err error
+		base := 0
+		if s.Prior {
+			if pc, perr := rig.Connect(p, []string{"h2", "http/1.1"}, &net.TCPAddr{IP: net.IPv4(198, 51, 100, 99), Port: 999}); perr == nil {
+				pc.Do(rig.ReqSpec{Method: "GET", Path: "/prior", Authority: "prior.example"})
+				rig.Wait()
+				base = p.Backend.Count()
+				if rapid_keepPriorOpen(s) {
+					defer pc.Close()
+				} else {
+					pc.Close()
+					rig.Wait()
+				}
+			}
+		}
 		if s.SplitHello {
 			cc, err = rig.ConnectSplit(p, alpn, 40)
 		} else {
@@ -193,7 +216,7 @@ func exec(t *testing.T, s Script) *vstat.Violation {
 			}
 		}
 		rig.Wait()
-		o.reqs = p.Backend.Requests()
+		o.reqs = p.Backend.Requests()[base:]
 	})
 	if msg != "" || o.hsErr != nil {
 		col.Class("discard:"+firstWords(msg+fmt.Sprint(o.hsErr)), 1)
@@ -278,6 +301,9 @@ func exec(t *testing.T, s Script) *vstat.Violation {
 	cl := []string{"proto:" + s.Proto, fmt.Sprintf("custom:%d", len(s.Custom))}
 	if s.SplitHello {
 		cl = append(cl, "unparsable-hello")
+		if s.Prior {
+			cl = append(cl, "unparsable-hello-after-another-client-was-fingerprinted")
+		}
 	}
 	for _, c := range s.Custom {
 		cl = append(cl, "custom-outcome:"+c.Outcome)
@@ -307,6 +333,6 @@ func firstWords(s string) string {
 
 func TestSpoof(t *testing.T) {
 	rig.Certs()
-	col.Mandatory("proto:h2", "proto:http/1.1", "proto:none", "unparsable-hello", "custom-outcome:value", "custom-outcome:empty", "custom-outcome:error", "client-value-where-injector-yields-nothing", "client-value-after-20+-distinct-header-names:h2")
+	col.Mandatory("proto:h2", "proto:http/1.1", "proto:none", "unparsable-hello", "custom-outcome:value", "custom-outcome:empty", "custom-outcome:error", "client-value-where-injector-yields-nothing", "client-value-after-20+-distinct-header-names:h2", "unparsable-hello-after-another-client-was-fingerprinted")
 	vstat.Run(t, vstat.Spec[Script]{Col: col, Quick: 2500, Thorough: 60000, Gen: gen, Exec: func(s Script) *vstat.Violation { return exec(t, s) }})
 }
